@@ -964,6 +964,12 @@ class AdapterRegistry(BaseAdapterRegistry):
         super()._setBases(bases)
 
     def changed(self, originally_changed):
+        if originally_changed is not self:
+            # A registry above us changed, possibly by being given new
+            # ``__bases__``; the resolution order we cached when our own
+            # bases were set would then be stale.
+            self.ro = ro.ro(self)
+
         super().changed(originally_changed)
 
         for sub in self._v_subregistries.keys():
@@ -971,7 +977,15 @@ class AdapterRegistry(BaseAdapterRegistry):
 
 
 class VerifyingAdapterLookup(AdapterLookupBase, VerifyingBase):
-    pass
+
+    def changed(self, originally_changed):
+        # Verifying registries are not notified when a registry above
+        # them is given new ``__bases__``; they only see its generation
+        # move. Bring the cached resolution order of our registry up to
+        # date before the generations along it are recorded again.
+        registry = self._registry
+        registry.ro = ro.ro(registry)
+        super().changed(originally_changed)
 
 
 @implementer(IAdapterRegistry)
